@@ -17,13 +17,16 @@ PROP = "C31"
 ENCODED = ["luna/gateware/usb/usb3/physical/scrambling.py: ScramblerLFSR (next_value / value equations, clear/advance)",
            "luna/gateware/usb/usb3/physical/scrambling.py: Scrambler / Descrambler (comma restart, hold, per-symbol XOR, pass-through)"]
 ASSUMPTIONS = [
-    "a COM restarts the keystream when it is symbol 0 of a *valid* sink word (K28.5 = 0xBC with its ctrl bit set)",
+    "a COM restarts the keystream when it is symbol 0 of a *transferred* word (valid & ready; K28.5 = 0xBC with its ctrl "
+    "bit set): a word that is on offer while the consumer stalls is one word of the stream, not several",
     "restart value = the instance's initial_value; checked for 0xFFFF (what USB3PhysicalLayer passes, and the Descrambler "
     "default) and for the Scrambler class default 0x7DBD",
     "a word is transferred when sink.valid & source.ready; it advances the keystream unless `hold` is high",
     "round trip: words transferred while `hold` is high (SKP insertion) do not reach the descrambler; `enable` is the "
     "same on both sides; `clear` is not used (restart is by COM, seen identically by both sides); the slot that is held "
-    "and replaced by SKP carries logical idle, never a COM word (can_send_skip contract of the link layer)",
+    "and replaced by SKP carries logical idle, never a COM word (can_send_skip contract of the link layer); the producer "
+    "keeps a word that was not accepted (valid & ~ready) on offer unchanged; the far side receives every transferred word "
+    "exactly once (no back-pressure on the receive path)",
 ]
 BOUNDS = "BMC from reset with every input free per cycle (quick K=8, thorough K=12) plus an induction step from an " \
          "arbitrary LFSR state (all 2^16 states) for the LFSR and for Scrambler/Descrambler"
@@ -132,6 +135,7 @@ class ScramblerHarness(Harness):
         self.v = {n: self.viol(n) for n in ("data_scrambled", "control_unchanged", "passthrough", "keystream_progress")}
         self.c = {n: self.cover(n) for n in ("mixed_word_scrambled", "advanced_3", "held_word", "com_restart",
                                              "stalled_word", "disabled_passthrough")}
+        self.kf_stall = self.kf("com_word_stalled")
         self.ghost = Signal(16, init=initial, name="ghost")
         self.ks = Signal(32, name="ks")
         self.obs("ghost", self.ghost), self.obs("lfsr_state", d.lfsr_state), self.obs("source_data", d.source.data)
@@ -157,7 +161,14 @@ class ScramblerHarness(Harness):
         com0 = sink.valid & (sink.data[0:8] == COM) & sink.ctrl[0]
         transfer = sink.valid & source.ready
         advanced = Signal(2, name="advanced")
-        with m.If(d.clear | com0):
+        # "restarts after a COM in a word's first symbol": the word counts when it is transferred (a word that is
+        # merely on offer while the consumer stalls is still the same, single word of the stream)
+        com_stalled = com0 & ~source.ready
+        ever_com_stalled = Signal(name="ever_com_stalled")
+        with m.If(com_stalled):
+            m.d.ss += ever_com_stalled.eq(1)
+        m.d.comb += self.kf_stall.eq(ever_com_stalled)
+        with m.If(d.clear | (com0 & transfer)):
             m.d.ss += [self.ghost.eq(self.initial), advanced.eq(0)]
         with m.Elif(transfer & ~d.hold):
             m.d.ss += [self.ghost.eq(nxt), advanced.eq(advanced + (advanced != 3))]
@@ -173,7 +184,7 @@ class ScramblerHarness(Harness):
         was_com = Signal(name="was_com")
         was_stalled = Signal(name="was_stalled")
         m.d.ss += [was_held.eq(transfer & d.hold & ~d.clear & ~com0 & (advanced >= 1)),
-                   was_com.eq(com0 & ~d.clear & (advanced >= 2)),
+                   was_com.eq(com0 & transfer & ~d.clear & (advanced >= 2)),
                    was_stalled.eq(sink.valid & ~source.ready & (advanced >= 1))]
         init_ks = sum(b << i for i, b in enumerate(lfsr_run([(self.initial >> i) & 1 for i in range(16)], 32)[0]))
         m.d.comb += [
@@ -213,6 +224,8 @@ class RoundTripHarness(Harness):
         self.c_after_com = self.cover("round_trip_after_com")
         self.c_after_hold = self.cover("round_trip_after_hold")
         self.a_idle_hold = self.assume("held_slot_is_not_com")
+        self.a_stable = self.assume("sink_stable_while_stalled")
+        self.kf_stall = self.kf("com_word_stalled")
         self.restrictions.append("clear of both units tied 0; descrambler hold tied 0")
 
     def stimulus(self, rng, t, consts):
@@ -248,6 +261,16 @@ class RoundTripHarness(Harness):
             m.d.ss += seen_hold.eq(1)
         differs = s.source.data != s.sink.data
         m.d.comb += self.a_idle_hold.eq(~(s.hold & com0))
+        # stream contract of the producer: a word that was offered and not accepted stays on offer unchanged
+        stalled = Signal(name="env_stalled")
+        last_data = Signal(32, name="env_last_data")
+        last_ctrl = Signal(4, name="env_last_ctrl")
+        m.d.ss += [stalled.eq(s.sink.valid & ~s.sink.ready), last_data.eq(s.sink.data), last_ctrl.eq(s.sink.ctrl)]
+        ever_com_stalled = Signal(name="ever_com_stalled")
+        with m.If(com0 & ~s.source.ready):
+            m.d.ss += ever_com_stalled.eq(1)
+        m.d.comb += self.kf_stall.eq(ever_com_stalled)
+        m.d.comb += self.a_stable.eq(~stalled | (s.sink.valid & (s.sink.data == last_data) & (s.sink.ctrl == last_ctrl)))
         m.d.comb += [
             self.v_rt.eq(d.source.valid & ((d.source.data != s.sink.data) | (d.source.ctrl != s.sink.ctrl))),
             self.c_rt.eq(delivered & (words >= 2) & differs & self.enable),
